@@ -57,7 +57,9 @@ def run_trace(r):
 def key_of(t, l, clause):
     h = t["hdr"]
     if clause in ("StarvingMeansNoFeed", "NotBelowRound1"):
-        return "%s:%s" % (clause, "storage" if h.get("store") else "first-year-only")
+        # (the mechanism of the recorded finding G2 needs a no-feed result below the threshold; anything else is a different violation)
+        below = h.get("pf1") is not None and h.get("T") is not None and h["pf1"] < h["T"]
+        return "%s:%s:%s" % (clause, "storage" if h.get("store") else "first-year-only", "pf1<T" if below else "pf1>=T")
     if clause in ("Completed", "SolverOptimal", "ValidatorsPass"):
         return "%s:%s:%s" % (clause, h["cc"], h["preset"])
     return clause
